@@ -1,10 +1,13 @@
 package sess
 
 import (
+	"bufio"
 	"encoding/json"
 	"fmt"
+	"io"
 	"math/rand/v2"
 	"os"
+	"os/exec"
 	"path/filepath"
 	"runtime"
 	"sort"
@@ -24,6 +27,7 @@ type Case struct {
 }
 
 type caseResult struct {
+	envNotes   []string
 	name       string
 	ops, impl  []string
 	viol       []corr.Violation
@@ -34,6 +38,7 @@ type caseResult struct {
 }
 
 type worker struct {
+	model     *model
 	broken    bool // a hang was observed: what follows on these instances would be unreliable
 	id        int
 	rng       *rand.Rand
@@ -95,8 +100,8 @@ func (in *instance) linkedSession(idx int) int {
 }
 
 // runCase drives one conversation; next yields the following op line given the current view.
-func (w *worker) runCase(cfg Cfg, name string, next func(*view) (string, bool)) caseResult {
-	res := caseResult{name: name, dist: map[string]int{}}
+func (w *worker) runCase(cfg Cfg, name string, next func(*view) (string, bool)) (res caseResult) {
+	res = caseResult{name: name, dist: map[string]int{}}
 	if w.broken {
 		res.skipped = true
 		res.dist["skipped-after-hang"]++
@@ -128,6 +133,14 @@ func (w *worker) runCase(cfg Cfg, name string, next func(*view) (string, bool)) 
 	v.snap = orc.prev
 	var batch []Req
 	var batchOps []string
+	lastCloseErr := ""
+	defer func() {
+		// diagnostics: should this case disagree with the model, the report shows why the server
+		// closed a connection last
+		if lastCloseErr != "" {
+			res.name += " [last close: " + lastCloseErr + "]"
+		}
+	}()
 	flush := func() error {
 		if len(batch) == 0 {
 			return nil
@@ -248,6 +261,19 @@ func (w *worker) runCase(cfg Cfg, name string, next func(*view) (string, bool)) 
 			}
 			post := in.snapshot()
 			line = out.line(post)
+			if out.CloseErr != "" {
+				lastCloseErr = fmt.Sprintf("%s -> %d: %s", r.Method, out.Status, out.CloseErr)
+			}
+			if e := out.CloseErr; e != "" {
+				// environment trouble (sockets, multicast memberships) would show up here
+				for _, w := range []string{"listen ", "bind:", "setsockopt", "no buffer space", "too many open files",
+					"address already in use", "permission denied", "cannot assign", "no such device", "network is unreachable"} {
+					if strings.Contains(e, w) {
+						res.envNotes = append(res.envNotes, fmt.Sprintf("%s: %s answered %d, connection closed with: %s", name, r.Method, out.Status, e))
+						break
+					}
+				}
+			}
 			orc.afterReq(r, out, linked, post, in)
 			v.snap = post
 		default:
@@ -280,6 +306,96 @@ func (w *worker) runCase(cfg Cfg, name string, next func(*view) (string, bool)) 
 	return res
 }
 
+// model is a private oracle process of the worker: it lets the worker see at once whether a case
+// agrees with the model, and run it a second time if it does not.  A difference between model and
+// implementation is deterministic and shows again; trouble with the environment (sockets, multicast
+// memberships, an overloaded machine) does not.  The authoritative comparison remains corr's.
+type model struct {
+	cmd *exec.Cmd
+	in  io.WriteCloser
+	out *bufio.Reader
+}
+
+func startModel(path string) *model {
+	if path == "" {
+		return nil
+	}
+	cmd := exec.Command(path)
+	in, err1 := cmd.StdinPipe()
+	out, err2 := cmd.StdoutPipe()
+	if err1 != nil || err2 != nil || cmd.Start() != nil {
+		return nil
+	}
+	return &model{cmd: cmd, in: in, out: bufio.NewReaderSize(out, 1<<16)}
+}
+
+func (m *model) lines(ops []string) []string {
+	if m == nil {
+		return nil
+	}
+	var sb strings.Builder
+	for _, op := range ops {
+		sb.WriteString(op)
+		sb.WriteByte('\n')
+	}
+	if _, err := io.WriteString(m.in, sb.String()); err != nil {
+		return nil
+	}
+	out := make([]string, 0, len(ops))
+	for range ops {
+		l, err := m.out.ReadString('\n')
+		if err != nil {
+			return nil
+		}
+		out = append(out, strings.TrimRight(l, "\n"))
+	}
+	return out
+}
+
+func (m *model) stop() {
+	if m != nil {
+		m.in.Close()
+		m.cmd.Wait() //nolint:errcheck
+	}
+}
+
+func sameLines(a, b []string) bool {
+	if len(a) != len(b) {
+		return false
+	}
+	for i := range a {
+		if a[i] != b[i] {
+			return false
+		}
+	}
+	return true
+}
+
+// runChecked runs a case; if the implementation's answers differ from the model's it replays the
+// same operations once and keeps the replay when that one agrees.
+func (w *worker) runChecked(cfg Cfg, name string, next func(*view) (string, bool)) caseResult {
+	r := w.runCase(cfg, name, next)
+	if r.err != nil || r.skipped || w.broken || w.model == nil {
+		return r
+	}
+	want := w.model.lines(r.ops)
+	if want == nil || sameLines(want, r.impl) {
+		return r
+	}
+	r2 := w.runCase(cfg, name, scripted(r.ops[1:]))
+	if r2.err == nil && sameLines(r2.ops, r.ops) && sameLines(want, r2.impl) && len(r2.viol) == 0 {
+		for k, n := range r.dist {
+			if _, ok := r2.dist[k]; !ok && strings.HasPrefix(k, "exhaustive:") || k == "random" || k == "corpus" {
+				r2.dist[k] = n
+			}
+		}
+		r2.dist["transient-difference-not-reproduced"]++
+		r2.envNotes = append(r2.envNotes, fmt.Sprintf("%s differed from the model once and agreed when replayed", r.name))
+		return r2
+	}
+	return r
+}
+
 func scripted(ops []string) func(*view) (string, bool) {
 	i := 0
 	return func(*view) (string, bool) {
@@ -307,6 +423,12 @@ func emit(c *corr.Ctx, r caseResult) {
 	for k, n := range r.dist {
 		c.DistN(k, n)
 	}
+	for _, n := range r.envNotes {
+		if envNoteCount < 20 {
+			c.Note("environment? " + n)
+		}
+		envNoteCount++
+	}
 	if r.skipped {
 		if r.dist["skipped-after-hang"] == 0 {
 			c.Dist("exhaustive:skipped(no session to name yet)")
@@ -318,6 +440,8 @@ func emit(c *corr.Ctx, r caseResult) {
 	}
 	c.Add(corr.Case{Name: r.name, Ops: r.ops, Impl: r.impl, Nontrivial: r.nontrivial})
 }
+
+var envNoteCount int
 
 var fullCfg = Cfg{Mask: 255, UDP: true, Mcast: false, NMedias: 2}
 
@@ -360,7 +484,9 @@ func runJobs(c *corr.Ctx, nWorkers int, jobs []job) {
 		go func(i int) {
 			defer wg.Done()
 			defer close(chans[i])
-			w := &worker{id: i, rng: rand.New(rand.NewPCG(seeds[i], uint64(i))), ctx: c, instances: map[Cfg]*instance{}}
+			w := &worker{id: i, rng: rand.New(rand.NewPCG(seeds[i], uint64(i))), ctx: c, instances: map[Cfg]*instance{},
+				model: startModel(c.Oracle)}
+			defer w.model.stop()
 			defer w.closeAll()
 			for j := i; j < len(jobs); j += nWorkers {
 				jobs[j](w, func(r caseResult) { chans[i] <- r })
@@ -435,7 +561,7 @@ func Run(c *corr.Ctx) {
 		}
 		name := "corpus/" + filepath.Base(f)
 		jobs = append(jobs, func(w *worker, out func(caseResult)) {
-			r := w.runCase(cs.Cfg, name, scripted(cs.Ops))
+			r := w.runChecked(cs.Cfg, name, scripted(cs.Ops))
 			r.dist["corpus"]++
 			out(r)
 		})
@@ -479,7 +605,7 @@ func Run(c *corr.Ctx) {
 								names = append(names, alpha[idx[i]].name)
 							}
 							pos := -2
-							r := w.runCase(cfg, tag+":"+strings.Join(names, ","), func(v *view) (string, bool) {
+							r := w.runChecked(cfg, tag+":"+strings.Join(names, ","), func(v *view) (string, bool) {
 								switch {
 								case pos == -2:
 									pos++
@@ -537,7 +663,7 @@ func Run(c *corr.Ctx) {
 							}
 						}
 						pos := -nConns
-						r := w.runCase(cfg, tag+":"+strings.Join(names, ","), func(v *view) (string, bool) {
+						r := w.runChecked(cfg, tag+":"+strings.Join(names, ","), func(v *view) (string, bool) {
 							if pos < 0 {
 								pos++
 								c := nConns + pos - 1
@@ -581,7 +707,7 @@ func Run(c *corr.Ctx) {
 					cfg = cfgs[w.rng.IntN(len(cfgs))]
 				}
 				g := &randGen{rng: w.rng, cfg: cfg, max: 3 + w.rng.IntN(12)}
-				r := w.runCase(cfg, fmt.Sprintf("rand-%d", i), g.next)
+				r := w.runChecked(cfg, fmt.Sprintf("rand-%d", i), g.next)
 				r.dist["random"]++
 				r.dist[fmt.Sprintf("cfg:mask=%d,udp=%v,mcast=%v,idle=%dms", cfg.Mask, cfg.UDP, cfg.Mcast, cfg.idleMs())]++
 				out(r)
